@@ -94,3 +94,29 @@ Qed.
 Theorem merge_order_unconditional fs fs' v :
   NoDup (map mf_name fs) -> Permutation fs fs' -> ((exists m, merge fs v = Ok m) <-> (exists m', merge fs' v = Ok m')).
 Proof. intros H Hp. apply merge_success_order_independent; [apply wf_modules_of_parsed; exact H|exact Hp]. Qed.
+
+(* ---- the content of the merged model and its independence of the file order, for every list of files
+        with distinct names (Proofs/MergeContent.v without the hypothesis about the parser) ---- *)
+From Verif Require Import Spec.MergeObs Proofs.MergeContent.
+
+Theorem merge_content_unconditional fs v m :
+  NoDup (map mf_name fs) -> merge fs v = Ok m ->
+  (forall f td r u, In f fs -> In td (file_defs f) -> assoc r (td_rels td) = Some u ->
+     rel_body (m_types m) (td_name td) r = Some u /\ rel_attr (m_types m) (td_name td) r = assoc r (td_meta_rels td)) /\
+  (forall f td r u, In f fs -> In td (file_exts f) -> assoc r (td_rels td) = Some u ->
+     rel_body (m_types m) (td_name td) r = Some u /\
+     rel_attr (m_types m) (td_name td) r = option_map (with_rel_file (mf_name f)) (assoc r (td_meta_rels td))) /\
+  (forall f td, In f fs -> In td (file_defs f) -> type_attr (m_types m) (td_name td) = Some (td_module td, mf_name f)) /\
+  (forall T r u, rel_body (m_types m) T r = Some u ->
+     exists f td, In f fs /\ In td (file_defs f ++ file_exts f) /\ td_name td = T /\ assoc r (td_rels td) = Some u).
+Proof. intros H. apply merge_content. apply wf_modules_of_parsed. exact H. Qed.
+
+Theorem merge_content_order_unconditional fs fs' v m m' :
+  NoDup (map mf_name fs) -> Permutation fs fs' -> merge fs v = Ok m -> merge fs' v = Ok m' ->
+  m_schema m = m_schema m' /\
+  Permutation (map td_name (m_types m)) (map td_name (m_types m')) /\
+  (forall T, type_attr (m_types m) T = type_attr (m_types m') T) /\
+  (forall T r, rel_body (m_types m) T r = rel_body (m_types m') T r /\
+               (rel_body (m_types m) T r <> None -> rel_attr (m_types m) T r = rel_attr (m_types m') T r)) /\
+  (forall n, assoc n (m_conds m) = assoc n (m_conds m')).
+Proof. intros H. apply merge_content_order_independent. apply wf_modules_of_parsed. exact H. Qed.
